@@ -76,6 +76,80 @@ CLAIMS = {
         technique="guarded-by analysis with held-on-entry, reaching definitions of timestamps vs lock regions, CFG must-pass-through, abstract interpretation of clamps, dominance of zero tests",
         design_ref="5/C12",
     ),
+    "C03": dict(
+        category="other",
+        text="Decides the structural clauses of the stream property for every input: (R3.1) each escape template of Style.render pairs SGR-open with ESC[0m and OSC-8 open with its close after the text (no leak); (R3.2) escape-carrying returns are dominated by the `color_system is None` exit and the buffer renderer passes the console's own colour system (colour disabled => no escapes); "
+             "(R3.3) under NO_COLOR the emit loop iterates Segment.remove_color(buffer), which maps every style through without_color, which clears both colours, and colour codes are only emitted under `is not None`; (R3.4) every append in the emit loop is dominated by `not (not_terminal and is_control)` (no control codes on a non-terminal); "
+             "(R3.5/R3.7) memoisation soundness of every cache in style/console/segment/color and of the derived _ansi slot on every construction route (history independence); (R3.6) control codes enter only as control segments. Down-conversion/parameter forms are proved under C18. Not decided: full decoder-model equivalence, colorama.",
+        note=COMMON_NOTE + "ECMA-48 / OSC-8 meanings of the literal sequences.",
+        technique="f-string template analysis, CFG dominance/branch facts, reaching definitions, memoisation-soundness dataflow",
+        design_ref="5/C03",
+    ),
+    "C04": dict(
+        category="other",
+        text="(R4.1) escape()'s regex and the tokenizer's RE_TAGS have equal normal forms (re._parser ASTs, capture groups flattened), arities match their unpack sites, the replacement doubles backslashes and adds one, the tokenizer halves them; (R4.2) MarkupError is raised only in the handlers converting the failed pops, both pops are inside those trys, the by-name close scans from the top; "
+             "(R4.3) `return text` is dominated by the loop draining unclosed tags to len(text); (R4.4) the span list handed to Text is in tag OPENING order by construction (spans reserved at open time), so a tag opened later wins. Necessary conditions of the property; not decided: the regex's behaviour on all strings, per-character equality.",
+        note=COMMON_NOTE + "Text.render applies spans in list order (C05).",
+        technique="regex-AST normal-form comparison, handler/raise-site structure, CFG dominance, ordering-by-construction check",
+        design_ref="5/C04",
+    ),
+    "C05": dict(
+        category="other",
+        text="(R5.0) only rich/text.py writes Text's _text/_length/_spans; (R5.1) symbolic length algebra (linear forms over len() atoms with reaching definitions) proves for every method that stores fragments that `_length == len(''.join(_text))` is preserved - same expression stored and measured, re-measure after store, append x with += len(x) for the same x, accumulators in step; shortening slices need a discharged side condition; "
+             "(R5.2) span offsets shift by exactly the inserted length, read before _length is updated; (R5.3) stylize/highlight*/copy_styles/highlighters reach no store to characters in their call-graph closure; (R5.4) every span-list rewrite is order preserving, divide() re-sorts by source index, render combines in list order; (R5.5) strings entering through __init__/append(str) pass strip_control_codes. "
+             "Decides `len() equals the length of the string` and `style-only operations never change characters` for all inputs; the rest are necessary conditions. Not decided: equality with a reference string model, cell-width dependent operations, tab-stop arithmetic of expand_tabs.",
+        note=COMMON_NOTE + "String length identities (concatenation, repetition of a 1-char string, join).",
+        technique="symbolic linear length algebra over reaching definitions, who-may-write scan, call-graph closure, order-preservation check",
+        design_ref="5/C05",
+    ),
+    "C14": dict(
+        category="other",
+        text="Exception-escape (effect) analysis from each parser entry point (Color.parse, Style.parse/normalize, markup render / Text.from_markup, Console.get_style, AnsiDecoder.decode*, Text.__init__, strip_control_codes, escape): only the documented exception type can escape, over precise raise sources - explicit raises, int()/float() on strings not proven digit-only by regex-group provenance or a sound predicate (isdigit() alone is unsound), bare next(), unguarded unpacking of split() results, unguarded dict-table lookups - propagated through resolved callees and subtracted by enclosing handlers along the exception class hierarchy; "
+             "(R14.2) no bare next() in any generator of the package (PEP 479); (R14.3) get_style converts StyleSyntaxError; (R14.4) premises of the accepted call edges are themselves checked. Decides the parser clause for all strings w.r.t. the enumerated sources. Not decided: 'printing/rendering any tree never raises' as a whole-library effect.",
+        note=COMMON_NOTE + "int() accepts any non-empty string of Unicode decimal digits; callee summaries listed in evidence assumptions.",
+        technique="interprocedural exception-escape analysis with regex-provenance of int() arguments",
+        design_ref="5/C14",
+    ),
+    "C15": dict(
+        category="other",
+        text="(R15.1) the record is extended at exactly one point, unfiltered, with the very snapshot that is rendered and written, in the same Console._lock region and under the same _buffer_index == 0 guard as the write (so captured output is never recorded and record order = file order); (R15.2) exports mutate the record only by `del record[:]` under `if clear`; "
+             "(R15.3) begin_capture opens a buffer context, end_capture renders and clears the thread buffer before leaving it, Capture.__exit__ ends the capture on every path; (R15.4) every HTML fragment passes escape() whose chain handles & first, control segments are filtered; (R15.5) plain export is exactly the non-control segments; (R15.6) simplify merges only when both operands are non-control. Not decided: equality of the four outputs over histories.",
+        note=COMMON_NOTE,
+        technique="def-use / same-region analysis of the recording site, CFG dominance and must-pass-through, template/chain checks",
+        design_ref="5/C15",
+    ),
+    "C16": dict(
+        category="other",
+        text="(R16.1) every _BRACES factory returns (open, close, empty) with no unformatted replacement field, mirrored brackets and matching constructor names; (R16.2) in _traverse every path from push_visited(id) to the exit passes pop_visited(id) and every recursive call is dominated by the visited test + push (cycles terminate; shared objects are not mistaken for cycles); "
+             "(R16.3) abbreviation counts are size - N for the same N that limits what is shown; (R16.4) both serialisers keep the one-element-tuple comma and the ', ' separators. Necessary conditions; not decided: eval(repr) == value for all inputs, fits-on-one-line arithmetic.",
+        note=COMMON_NOTE,
+        technique="template checks on the brace table, CFG must-pass-through typestate for the visited set, def-use agreement of abbreviation counts",
+        design_ref="5/C16",
+    ),
+    "C17": dict(
+        category="other",
+        text="(R17.1) every lexer whose tokens are displayed is created with stripnl=False; (R17.2) no bare next() in the generators of syntax/traceback and tokens before a range are still emitted; (R17.3) the first displayed number is start_line + the very lower bound that slices the line list, offset = max(0, range_start-1), slice end = range end, gutter from start_line + newline count; "
+             "(R17.4) token text flows unchanged from get_tokens to append_tokens on both paths and the fallback appends the code; (R17.5) traceback frames build line_range and highlight_lines from the same frame.lineno over the whole file text; (R17.6) no cache in traceback/syntax depends on file contents or other impure state. Necessary conditions; Pygments' token stream is trusted.",
+        note=COMMON_NOTE + "Pygments documentation of stripnl.",
+        technique="dataflow on lexer construction, PEP-479 scan, linear agreement of numbering and slicing, memoisation soundness",
+        design_ref="5/C17",
+    ),
+    "C19": dict(
+        category="other",
+        text="(R19.1) for every attribute bit the encoder's SGR parameter maps in the decoder table to that attribute; (R19.2) for all 16 standard colours x fg/bg the code computed by abstract evaluation of Color.get_ansi_codes maps back to color(n)/on color(n), 39/49 to default; (R19.3) 38/48 x 5/2 branches read exactly the parameters the encoder writes into the right slot; "
+             "(R19.4) SGR 0 resets, the OSC-8 template matches the decoder regex and the URL is everything after the parameter field; (R19.5) every console.print in FileProxy is data-only (markup/emoji/highlight off) and decoded; (R19.6) buffer typestate: pending text is never reused after the clear and never cleared unread. Table agreement is exhaustive over the tables; the rest are necessary conditions. Not decided: per-character style equality of the round trip.",
+        note=COMMON_NOTE + "C18's abstract interpretation.",
+        technique="encoder/decoder table agreement via abstract evaluation, branch-structure checks, CFG typestate of the proxy buffer",
+        design_ref="5/C19",
+    ),
+    "C20": dict(
+        category="other",
+        text="(R20.1) after every mutation of ThemeStack._entries every normal path re-binds get to the new top entry; (R20.2) each pushed entry is a fresh dict and nothing mutates an entry or theme.styles in place (so pop restores every lookup); (R20.3) with inherit the entry is {**previous top, **theme.styles}, without it only the theme's styles; (R20.4) pop is dominated by the base-theme guard that raises; "
+             "(R20.5) ThemeContext pushes once, pops on every path, returns falsy, and the inherit option is forwarded through all four hops from use_theme to ThemeStack.push_theme; (R20.6) get_style consults the stack before Style.parse and config/from_file are inverse templates. Decides the stack discipline for all push/pop histories. Not decided: configparser behaviour.",
+        note=COMMON_NOTE,
+        technique="CFG must-pass-through and dominance, freshness/alias check of pushed entries, option-forwarding dataflow",
+        design_ref="5/C20",
+    ),
 }
 
 NA = {
